@@ -21,6 +21,8 @@ type injected struct {
 	syntactic bool
 	// expansion: the fault is detected while PASTE is expanded (see known finding D18)
 	expansion bool
+	// atEOF: the faulty directive is the last thing of the root file, which ends without a line break
+	atEOF bool
 }
 
 type ftree struct {
@@ -592,6 +594,31 @@ func faultTable() map[string]faultFn {
 	for _, k := range []string{"INFO", "Title", "Version", "Description", "BaseUrl", "URL", "Query", "Request", "Headers", "Path", "Protocol", "MACRO", "PASTE", "Tags", "OperationId", "JSIGHT", "Body-in-Request", "Params", "Result"} {
 		tb["forbidden-annotation:"+k] = forbiddenAnnotation(k)
 	}
+	// a method without its path that has a Path directive: the path is missing at the method
+	tb["missing-parameter:method-path-with-Path-child"] = func(t *ftree) *injected {
+		verb := []string{"GET", "POST", "PUT", "PATCH", "DELETE"}[t.r.Intn(5)]
+		m := &model.RDir{Kind: verb, Keyword: verb, Origin: "added"}
+		m.Children = []*model.RDir{{Kind: "Path", Keyword: "Path", BodyKind: "schema", BodyLines: []string{"{", "  \"id\": 1", "}"}},
+			{Kind: "HTTP-response-code", Keyword: "200", Params: []string{"any"}}}
+		at := 1 + t.r.Intn(len(t.roots))
+		out := append([]*model.RDir(nil), t.roots[:at]...)
+		out = append(out, m)
+		t.roots = append(out, t.roots[at:]...)
+		return &injected{class: "missing-parameter:method-path-with-Path-child", off: m, patterns: []string{"path not found"}}
+	}
+	// a directive without its body as the very last thing of a file that ends without a line break
+	for _, k := range []string{"ENUM", "TYPE", "ENUM-nameless"} {
+		kind := k
+		tb["missing-body-at-end-of-file:"+kind] = func(t *ftree) *injected {
+			d := &model.RDir{Kind: strings.TrimSuffix(kind, "-nameless"), Keyword: strings.TrimSuffix(kind, "-nameless"), Params: []string{"@atEOF"}}
+			if kind == "ENUM-nameless" {
+				d.Params = nil
+			}
+			t.roots = append(t.roots, d)
+			return &injected{class: "missing-body-at-end-of-file:" + kind, off: d, atEOF: true, syntactic: true,
+				patterns: []string{"body cannot be empty", "body is empty", "invalid end of file", "Unexpected end of file", "not specified", "cannot be empty"}}
+		}
+	}
 	for _, k := range []string{"Path", "Query", "Headers", "TYPE", "ENUM"} {
 		kind := k
 		tb["missing-body-syntactic:"+kind] = func(t *ftree) *injected {
@@ -644,7 +671,13 @@ func C03(c *fw.Ctx) {
 				if inj == nil {
 					continue
 				}
+				if inj.atEOF {
+					l.Macros, l.Includes, l.Comments = false, false, false
+				}
 				rd := model.RenderTree(t.roots, l)
+				if inj.atEOF {
+					rd.Files[rd.Root] = []byte(strings.TrimRight(string(rd.Files[rd.Root]), "\r\n \t"))
+				}
 				made++
 				id := fmt.Sprintf("fault/%d-%d", ci, made)
 				maxMuLock.Lock()
